@@ -738,13 +738,9 @@ func (c *Ctx) depFactProgressSend() string {
 // L2: ancestry is followed.
 func (c *Ctx) ruleL2(fns []*ssa.Function) {
 	n := 0
+	byFn := c.fetchedLogsByFn(fns)
 	for _, f := range fns {
-		var fetched []ssa.Value
-		eachCall(f, func(call ssa.CallInstruction) {
-			if calleeFull(call) == logMod+".NewFromEntryHash" && call.Value() != nil {
-				fetched = append(fetched, call.Value())
-			}
-		})
+		fetched := byFn[f]
 		if len(fetched) == 0 {
 			continue
 		}
@@ -817,6 +813,63 @@ func (c *Ctx) ruleL2(fns []*ssa.Function) {
 		}
 	}
 	c.floor("L2", "fetch steps (NewFromEntryHash in the replicator)", n, 1)
+}
+
+// fetchedLogsByFn: where fetched logs are worked on. A log fetched by NewFromEntryHash is
+// attributed to the function that calls it, unless that function only hands it back (a
+// fetch wrapper): then it is attributed to each caller, as the value of the call.
+func (c *Ctx) fetchedLogsByFn(fns []*ssa.Function) map[*ssa.Function][]ssa.Value {
+	out := map[*ssa.Function][]ssa.Value{}
+	var place func(f *ssa.Function, v ssa.Value, depth int)
+	place = func(f *ssa.Function, v ssa.Value, depth int) {
+		d := derived([]ssa.Value{v}, flowOpts{})
+		returned := false
+		eachInstr(f, func(in ssa.Instruction) {
+			r, ok := in.(*ssa.Return)
+			if !ok {
+				return
+			}
+			for _, rv := range r.Results {
+				// only the log itself counts, not an error or a count derived from the same call
+				if t := typeStr(rv.Type()); !strings.HasSuffix(t, "go-ipfs-log.Log") && !strings.HasSuffix(t, "iface.IPFSLog") {
+					continue
+				}
+				if d[rv] {
+					returned = true
+				}
+				for _, x := range resolveSpill(rv) {
+					if d[x] {
+						returned = true
+					}
+				}
+			}
+		})
+		if !returned || depth >= 2 {
+			out[f] = append(out[f], v)
+			return
+		}
+		placed := false
+		for _, g := range fns {
+			eachCall(g, func(call ssa.CallInstruction) {
+				if _, isCall := call.(*ssa.Call); !isCall || call.Common().StaticCallee() != f || call.Value() == nil {
+					return
+				}
+				placed = true
+				place(g, call.Value(), depth+1)
+			})
+		}
+		if !placed {
+			out[f] = append(out[f], v)
+		}
+	}
+	for _, f := range fns {
+		eachCall(f, func(call ssa.CallInstruction) {
+			if calleeFull(call) == logMod+".NewFromEntryHash" && call.Value() != nil {
+				place(f, call.Value(), 0)
+			}
+		})
+	}
+	return out
 }
 
 // fetchBatchSize resolves the FetchOptions.Length handed to NewFromEntryHash in the
